@@ -25,6 +25,8 @@ type c22Replay struct {
 	Dims     []int    `json:"dims,omitempty"`
 	Names    []string `json:"dim_names,omitempty"`
 	Frame    string   `json:"frame,omitempty"`
+	// history section: the call sequence (see c22_history_test.go)
+	Ops []c22OpRef `json:"ops,omitempty"`
 }
 
 type c22Unit struct {
@@ -158,6 +160,10 @@ func TestVerifC22(t *testing.T) {
 			r.HarnessError("replay: bad payload: %v", err)
 			return
 		}
+		if pl.Space == "history" {
+			c22HistoryReplay(r, pl)
+			return
+		}
 		sp := c22FindSpace(pl.Space, pl.Thorough)
 		if sp == nil || pl.Index < 0 || pl.Index >= sp.size() {
 			r.HarnessError("replay: unknown space %q / index %d", pl.Space, pl.Index)
@@ -177,6 +183,9 @@ func TestVerifC22(t *testing.T) {
 		r.Section(ev.Section{Name: sectionOf(pl.Space), Kind: "enum", Evaluations: 1, Note: "replay"})
 		return
 	}
+
+	// call sequences first: their references are taken on the fresh process state
+	c22HistorySection(r)
 
 	secNames := []string{"product", "sweep", "sizes", "header", "limits"}
 	spaces := [][]*c22Space{c22Products(th), c22Sweeps(th), c22Sizes(th), {c22Header()}, {c22Limits()}}
